@@ -37,6 +37,7 @@ type Interp struct {
 	syncMaps   map[*Value]*MapV
 	syncPools  map[*Value][]Value
 	poolForks  int
+	maxDepth   int
 	syncWrites int
 	mapOrder   int // 0 insertion order, 1 reversed
 	errRange   Value
@@ -461,7 +462,7 @@ func (ip *Interp) callSSA(caller *frame, pos token.Pos, fn *ssa.Function, args [
 	if caller != nil {
 		depth = caller.depth + 1
 	}
-	if depth > 400 {
+	if depth > ip.maxDepth {
 		ip.ex.endPath("fuel", "call depth budget exhausted")
 	}
 	if caller != nil && fn.Synthetic == "package initializer" {
@@ -529,7 +530,7 @@ func (ip *Interp) interpretable(path string) bool {
 		return true
 	}
 	switch path {
-	case "strconv", "strings", "encoding/binary", "errors", "unicode/utf8", "sort", "internal/stringslite", "math", "math/bits", "unicode", "internal/bytealg", "bytes", "slices", "cmp":
+	case "strconv", "strings", "encoding/binary", "errors", "unicode/utf8", "sort", "internal/stringslite", "math", "math/bits", "unicode", "internal/bytealg", "bytes", "slices", "cmp", "sync/atomic":
 		return true
 	}
 	return false
